@@ -6,6 +6,7 @@ require (
 	github.com/BurntSushi/toml v0.0.0-00010101000000-000000000000
 	github.com/anishathalye/porcupine v1.3.0
 	github.com/grafana/carbon-relay-ng v0.0.0
+	github.com/kisielk/og-rek v0.0.0-20170405223746-ec792bc6e6aa
 	github.com/metrics20/go-metrics20 v0.0.0-20180821133656-717ed3a27bf9
 	github.com/sirupsen/logrus v1.1.2-0.20181020050904-08e90462da34
 	github.com/streadway/amqp v0.0.0-20170521212453-dfe15e360485
@@ -36,7 +37,6 @@ require (
 	github.com/jcmturner/gofork v0.0.0-20190328161633-dc7c13fece03 // indirect
 	github.com/jmespath/go-jmespath v0.0.0-20160202185014-0b12d6b521d8 // indirect
 	github.com/jpillora/backoff v0.0.0-20160414055204-0496a6c14df0 // indirect
-	github.com/kisielk/og-rek v0.0.0-20170405223746-ec792bc6e6aa // indirect
 	github.com/pelletier/go-toml v1.9.1 // indirect
 	github.com/philhofer/fwd v0.0.0-20151120024002-92647f2bd94a // indirect
 	github.com/pierrec/lz4 v0.0.0-20190327172049-315a67e90e41 // indirect
